@@ -738,6 +738,77 @@ def eval_single(rp):
 
 
 # ----------------------------------------------------------------------------- witnesses of the _refuted theorems
+# ----------------------------------------------------------------------------- single precision (predicate only)
+def case_p32(rng, tier, i):
+    """single-precision observation tensors (and start values) are finite observation tensors too: the NaN/Inf clause,
+    the weight clause and the unit-norm clauses are evaluated with single-precision tolerances; no Coq expression"""
+    kind = 'model' if i % 2 == 0 else 'single'
+    mode = ['zero', 'repeat', 'identical', None][int(rng.integers(0, 4))]
+    if kind == 'model':
+        name = mm.MODELS[(i // 2) % 7]
+        K, D, N = int(rng.integers(1, 4)), int(rng.integers(2, 5)), int(rng.integers(4, 14))
+        if name == 'cacgmm':
+            K = max(K, 2)
+        lead = (int(rng.integers(1, 3)),) if name in mm.INTEGRATION else tuple(int(v) for v in rng.integers(1, 3, int(rng.integers(0, 2))))
+        if name == 'cbmm':
+            D, N = min(D, 3), min(N, 8)
+        data = mm.make_data(rng, name, K, D, N, lead)
+        if mode:
+            data = degenerate(rng, name, data, mode)
+        data = {k: (v.astype(np.complex64) if np.iscomplexobj(v) else v.astype(np.float32)) for k, v in data.items() if k != 'labels'}
+        init = mm.make_init(rng, K, N, lead, 'positive').astype(np.float32)
+        rp = {'fn': 'p32', 'kind': kind, 'model': name, 'data': data, 'init': init, 'iterations': int(rng.integers(1, 4)), 'degenerate': mode}
+        label = 'single precision fit %s K=%d D=%d N=%d lead=%s iters=%d degenerate=%s' % (name, K, D, N, lead, rp['iterations'], mode)
+    else:
+        which = ['watson', 'vmf', 'gaussian', 'cacg'][(i // 2) % 4]
+        D, N = int(rng.integers(2, 5)), int(rng.integers(4, 14))
+        lead = tuple(int(v) for v in rng.integers(1, 3, int(rng.integers(0, 2))))
+        y = mm.crandn(rng, (*lead, N, D)) if which in ('watson', 'cacg') else rng.normal(size=(*lead, N, D)) + 1.0
+        if mode:
+            y = degenerate(rng, 'cwmm', {'y': y}, mode)['y']
+        y = y.astype(np.complex64) if np.iscomplexobj(y) else y.astype(np.float32)
+        rp = {'fn': 'p32', 'kind': kind, 'which': which, 'y': y, 'degenerate': mode}
+        label = 'single precision fit %s D=%d N=%d lead=%s degenerate=%s' % (which, D, N, lead, mode)
+    fail, key, raised = eval_p32(rp)
+    arrs = [v for v in (rp.get('data') or {'y': rp.get('y')}).values()]
+    return Case(label, coq=None, pred_fail=fail, key=key, nontrivial=mode is not None, digest_=core.digest(label, *arrs),
+                sample={'name': label}, replay=rp, raised=raised, kind='single-precision/' + (rp.get('model') or rp.get('which')))
+
+
+def eval_p32(rp):
+    import pb_bss.distribution as d
+    try:
+        if rp['kind'] == 'model':
+            name = rp['model']
+            data = {k: np.array(v) for k, v in rp['data'].items()}
+            model, _ = mm.fit(name, data, np.array(rp['init']), iterations=rp['iterations'])
+        else:
+            y = np.array(rp['y'])
+            name = rp['which']
+            T = {'watson': d.ComplexWatsonTrainer, 'vmf': d.VonMisesFisherTrainer, 'gaussian': d.GaussianTrainer,
+                 'cacg': d.ComplexAngularCentralGaussianTrainer}[name]()
+            model = T.fit(y)
+    except Exception as e:
+        if core.deliberate_exception(e):
+            return None, None, '%s: %s' % (type(e).__name__, str(e)[:120])
+        return ('fit raised %s (not an explicit, deliberate exception): %s' % (type(e).__name__, str(e)[:300]),
+                'p32:crash:%s:%s' % (name, type(e).__name__), None)
+    pth = nonfinite_field(model)
+    if pth:
+        return ('single-precision input: fitted field %s contains NaN/Inf' % pth), 'p32:nonfinite:%s:%s' % (name, pth), None
+    if rp['kind'] == 'model':
+        w = np.asarray(model.weight, dtype=float)
+        if w.min() < 0:
+            return 'single-precision input: negative mixture weight', 'p32:weights:%s' % name, None
+        K = np.array(rp['init']).shape[-2]
+        full = mm.stored_weight(name, model, np.array(rp['init']).shape)
+        if np.abs(full.sum(-2) - 1).max() > 1e-3:
+            return ('single-precision input: mixture weights do not sum to one over classes (max dev %.3g)'
+                    % np.abs(full.sum(-2) - 1).max()), 'p32:weights:%s' % name, None
+    return None, None, None
+
+
+
 def witness_cases():
     """the inputs behind C09_cacg_eig_max_one_refuted and C09_bingham_max_zero_refuted, replayed on the implementation"""
     out = []
@@ -782,6 +853,8 @@ def cases(rng, tier):
         out.append(case_single(rng, tier, i, degen=True))
     for i in range(4 if q else 40):
         out.append(case_single(rng, tier, i, degen=bool(i % 2), which='bingham', force_finite=True))
+    for i in range(44 if q else 440):
+        out.append(case_p32(rng, tier, i))
     # the NaN/Inf clause has no theorem behind it: a larger predicate-only budget on every run (no Coq expression)
     for i in range(300 if q else 4000):
         r = i % 4
@@ -804,6 +877,8 @@ def replay(payload):
     rp = payload['replay']
     if rp['fn'] == 'model':
         r = eval_model(rp)
+    elif rp['fn'] == 'p32':
+        r = eval_p32(rp)
     else:
         r = eval_single(rp)
     return r[0]
